@@ -87,6 +87,12 @@ def check_sources(ctx):
                 if isinstance(n.func, ast.Name) and n.func.id in DYNAMIC:
                     ctx.violation("R14-DYN", file, where(model, tree, n, file), norm_src(n),
                                   "dynamic feature %s() defeats the name-based analysis every rule relies on" % n.func.id, n.lineno)
+                # uninitialised memory: np.empty / np.empty_like / np.ndarray(shape) hand back whatever the allocator returns, so a
+                # result computed from an element that was not written first depends on what the process allocated before
+                if len(parts) == 2 and al.get(parts[0], "").split(".")[0] == "numpy" and parts[1] in ("empty", "empty_like", "ndarray"):
+                    ctx.violation("R14-SRC", file, where(model, tree, n, file), norm_src(n),
+                                  "np.%s returns uninitialised memory: unless every element is overwritten before it is read the result depends "
+                                  "on the allocator's history, not on (seed, arguments, rewards) - use np.zeros / np.full" % parts[1], n.lineno)
                 # numpy random
                 if len(parts) >= 3 and parts[-2] == "random" and al.get(parts[0], "").split(".")[0] == "numpy":
                     fn = parts[-1]
